@@ -295,7 +295,7 @@ def replay(path):
     if st == "pair":
         r = impl_pair(case)
         print("implementation:", r, "\noracle:", oracle_pair(case, r))
-    elif st == "builtin":
+    elif st in ("builtin", "long"):
         r = impl_builtin(case)
         print("implementation:", {k: r[k] for k in r if k != "tab"}, "\noracle:", oracle_builtin(case, r))
     else:
